@@ -21,6 +21,7 @@ META = {
 }
 
 ALPHA = 'AFMRSPafmspx'
+NULLS = '12345'
 
 
 def gen_histories(chk, n, maxlen):
@@ -33,7 +34,7 @@ def gen_histories(chk, n, maxlen):
     while len(hs) < n:
         k = rng.randint(1, maxlen)
         w = rng.choice([(8, 1), (3, 1), (1, 1)])  # insertion-heavy, mixed, clear-heavy
-        hs.append(''.join(rng.choice('AFMSPRM') if rng.random() < w[0] / (w[0] + w[1]) else rng.choice('afmspx') for _ in range(k)))
+        hs.append(''.join((rng.choice('AFMSPRM') if rng.random() < 0.9 else rng.choice(NULLS)) if rng.random() < w[0] / (w[0] + w[1]) else rng.choice('afmspx') for _ in range(k)))
     return hs
 
 
@@ -50,7 +51,7 @@ def run():
                    'tools/src2coq.py translator (sortedpipeline.cpp -> SrcSorted.v)',
                    'extraction ExtrOcamlBasic (bool/option/unit/prod/list/sumbool), no Extract Constant; ocaml/drv_sorted.ml',
                    'harness/h_sorted.cpp; Qt containers and std::find_if are modelled, not verified']
-    chk.assumptions = ['handlers passed to the typed calls are non-null (null is ignored by every call)',
+    chk.assumptions = ['a null pointer passed to a typed call is ignored (modelled as NullCall; exercised)',
                        'only the typed calls of the property are used (generic append/insertBetween* are outside C17)']
     proof_ok = chk.proof(vlib.proof_leg('Properties_C17', ['sorted', 'pipeline']))
     model = vlib.build_model('sorted')
@@ -59,6 +60,8 @@ def run():
     hs = gen_histories(chk, 40000 if thorough else 3000, 40 if thorough else 30)
     ex_len = 5 if thorough else 4
     hs += list(exhaustive(ex_len))
+    # null-pointer calls: every history of length <= 3 over insertions and null calls, extended by one insertion of each class
+    hs += [''.join(t) + tail for k in (1, 2, 3) for t in itertools.product('AFMSP' + NULLS, repeat=k) if set(t) & set(NULLS) for tail in 'AFMSP']
     rc1, out_i, err_i = vlib.run_lines(impl, hs)
     rc2, out_m, _ = vlib.run_lines(model, hs)
     rc3, out_s, _ = vlib.run_lines(model, hs, ['spec'])
@@ -89,7 +92,7 @@ def run():
         _, o, _ = vlib.run_lines(impl, [small])
         _, sp, _ = vlib.run_lines(model, [small], ['spec'])
         chk.fail('handler list violates class order / stability / single formatter after history %r' % small,
-                 {'history': small, 'alphabet': 'A F M S P = appendAttrHandler appendFilter setFormatter appendSink appendPipeline; R = setFormatter with the same formatter object as the last M/R; a f m s p = clear<Class>; x = clear()',
+                 {'history': small, 'alphabet': 'A F M S P = appendAttrHandler appendFilter setFormatter appendSink appendPipeline; R = setFormatter with the same formatter object as the last M/R; 1..5 = appendAttrHandler/appendFilter/setFormatter/appendSink/appendPipeline(nullptr); a f m s p = clear<Class>; x = clear()',
                   'implementation_lists_after_each_call': o[0] if o else None, 'specified_lists': sp[0] if sp else None,
                   'falsified_histories': len(falsified), 'kind': 'order'}, kind='order')
     elif dis_spec:
